@@ -1,5 +1,6 @@
 import Driver.Store
 import NixModel.Store.ApiW
+import NixModel.Generated.WriteOrder
 open Lean Nix.Store
 
 /-!
@@ -13,6 +14,11 @@ Additional ops:
   ["append_dim", path, kind, withData, fault]
   ["extend", path, cname, [key, …]]                     LinkContainer.extend (append = extend of one item)
   ["dump12"]                                            dump incl. dimension descriptors
+  ["vec_set", setter, stored, stamp, now, arg]          the vector setters of Pure/VecWrite.lean run on the step lists
+        of Generated/WriteOrder.lean (stateless): setter = "Tag.position" | "Tag.extent" |
+        "DataArray.polynom_coefficients" | "Property.values"; stored = null | ["n/d", …]; arg = null |
+        {"scalar": elem} | {"unsized": elem} | {"seq": [isArray, [elem, …]]} | {"nested": [isArray, rank, [elem, …]]};
+        elem = ["n/d", typeOk, convOk, h5Ok]; answer {"ds": null | [rank, ["n/d", …]], "stamp": n, "err": null | class}
 -/
 namespace Driver.C12
 open Driver Driver.Store
@@ -79,8 +85,62 @@ partial def dump12 (g : Graph) : Json :=
     | .ok x, .ok y => (jInt? x).getD 0 < (jInt? y).getD 0
     | _, _ => false)
 
+/-! ### the vector setters (stateless) -/
+open Nix.VecWrite in
+def parseRat (s : String) : Option Rat :=
+  match s.splitOn "/" with
+  | [n] => n.toInt?.map fun i => (i : Rat)
+  | [n, d] => match n.toInt?, d.toNat? with
+    | some i, some k => if k == 0 then none else some (mkRat i k)
+    | _, _ => none
+  | _ => none
+
+open Nix.VecWrite in
+def parseElem (j : Json) : Option Elem :=
+  match (jArr j).toList with
+  | [.str v, t, c, h] => (parseRat v).map fun q => { val := q, typeOk := jBool t, convOk := jBool c, h5Ok := jBool h }
+  | _ => none
+
+open Nix.VecWrite in
+def parseVArg (j : Json) : Option Arg :=
+  if isNull j then some .none
+  else match j.getObjVal? "scalar" with
+    | .ok e => (parseElem e).map Arg.scalar
+    | .error _ => match j.getObjVal? "unsized" with
+      | .ok e => (parseElem e).map Arg.unsized
+      | .error _ => match j.getObjVal? "seq" with
+        | .ok sj => match (jArr sj).toList with
+          | [a, es] => ((jArr es).toList.mapM parseElem).map fun l => Arg.seq (jBool a) l
+          | _ => none
+        | .error _ => match j.getObjVal? "nested" with
+          | .ok sj => match (jArr sj).toList with
+            | [a, r, es] => match jInt? r, (jArr es).toList.mapM parseElem with
+              | some rk, some l => some (Arg.nested (jBool a) rk.toNat l)
+              | _, _ => none
+            | _ => none
+          | .error _ => none
+
+open Nix.VecWrite Nix.Generated.WriteOrder in
+def vecSet (name : String) (stored : Json) (stamp now : Json) (arg : Json) : Json :=
+  let setter? : Option Setter :=
+    if name == "Property.values" then some propertyValues else (floatSetters.find? (·.1 == name)).map (·.2)
+  let ds? : Option (Option Dataset) :=
+    if isNull stored then some none
+    else ((jArr stored).toList.mapM fun v => parseRat (jStr v)).map fun vs => some { rank := 1, vals := vs }
+  match setter?, ds?, jInt? stamp, jInt? now, parseVArg arg with
+  | some s, some ds, some st, some nw, some x =>
+    let r := runSetter writeDataSteps s { ds := ds, stamp := st.toNat } nw.toNat x
+    ok (Json.mkObj [
+      ("ds", match r.1.ds with
+        | none => Json.null
+        | some d => Json.arr #[Json.num d.rank, Json.arr (d.vals.map fun q => Json.str (ratStr q)).toArray]),
+      ("stamp", Json.num r.1.stamp),
+      ("err", match r.2 with | none => Json.null | some e => Json.str e.toString)])
+  | _, _, _, _, _ => bad "vec_set"
+
 def step (g : Graph) (j : Json) : Graph × Json :=
   match (jArr j).toList with
+  | [.str "vec_set", .str name, stored, stamp, now, arg] => (g, vecSet name stored stamp now arg)
   | [.str "create_block", nm, .str ty] =>
     match parseName g nm with
     | some name => reached (createBlockW g name ty)
